@@ -111,7 +111,15 @@ pub fn explore(ctx: &Ctx) {
     });
     // special meridians and parallels at 0.05 deg
     let anti = KAABA_LON - 180.0;
-    let merid = [KAABA_LON, anti, 180.0, -180.0, 0.0, KAABA_LON + 1e-9, anti - 1e-9, anti + 1e-9];
+    let mut merid = vec![KAABA_LON, anti, 180.0, -180.0, 0.0, KAABA_LON + 1e-9, anti - 1e-9, anti + 1e-9];
+    // geometric approach to the two meridians on which the bearing is exactly 0 / 180 and to the date line:
+    // +-1 x 10^-k and +-3 x 10^-k degrees, k = 2..=12 (a shortcut or tolerance band around them has some width)
+    for k in 2..=12 {
+        for f in [1.0, 3.0] {
+            let e = f * 10f64.powi(-k);
+            merid.extend([KAABA_LON + e, KAABA_LON - e, anti + e, anti - e, 180.0 - e, -180.0 + e, e, -e]);
+        }
+    }
     let paral = [KAABA_LAT, -KAABA_LAT, 0.0, 89.999, -89.999, 89.9999999, -89.9999999];
     ctx.alphabet("special_lines", json!({"meridians": merid, "parallels": paral, "step": 0.05}));
     let mut lines: Vec<(bool, f64)> = merid.iter().map(|m| (true, *m)).collect();
